@@ -47,6 +47,7 @@ def run(env, rep):
         if a["pretty"] == "handshake::Stage":
             stage_adt = a
     hs = [a for k, a in prog.adts.items() if a["pretty"] == "handshake::Handshake"]
+    hs_ty = "handshake::Handshake"
     if stage_adt is None or not hs:
         rep.anchor_missing("C05.R1", "handshake::Stage / handshake::Handshake")
         return
@@ -74,13 +75,33 @@ def run(env, rep):
     # ------------------------------------------------------------------ per stage function
     n_susp = 0
     stage_fns = {}
+    stage_traces = {}
     for k, ck in callee_of.items():
         sb = prog.bodies[ck]
         rep.fn(sb.key)
         stage = names.get(k, str(k))
         stage_fns[stage] = sb
-        tr = [sig(p) for p in grammar.trace(env, sb.key, "r").paths]
+        def probe(it_, S_):
+            """where in the bytes that were buffered at entry the buffer stands now, and which part of them is handed back"""
+            from ..models import span_of
+            from . import facts
+            loc = facts.self_field_loc(it_, prog, hs_ty, ["input_buffer"])
+            if loc is None:
+                return None
+            len0 = facts.State().read((loc[0], loc[1] + (("len",),)))
+            org, st, ln = span_of(it_, S_, loc)
+            cur_len = S_.read((loc[0], loc[1] + (("len",),)))
+            out = {"same": org == loc, "start": const_val(st), "empty": const_val(cur_len) == 0}
+            rv = S_.read((it_.L(0), ()))
+            for x in subterms(rv):
+                if isinstance(x, tuple) and x[0] == "model" and x[1] == "span" and isinstance(x[2], tuple) and x[2][0] == "ref":
+                    b_, off = S_.norm(x[4])
+                    out["left_from"] = (x[2][1] == loc, const_val(x[3]), (b_ == S_.norm(len0)[0] and off - S_.norm(len0)[1]) if b_ is not None else None)
+            return tuple(sorted(out.items()))
+        tr = [sig(p) for p in grammar.trace(env, sb.key, "r", probe=probe).paths]
+        stage_traces[stage] = tr
         adv_amounts = set()
+        adv_spans = set()
         for p in tr:
             rets = [t for t in p if t[0] == "returns"]
             if not rets:
@@ -90,11 +111,17 @@ def run(env, rep):
             is_ok = rets[-1][1].startswith("Ok(")
             if stores:
                 adv_amounts.add(tuple(a for _, a in takes))
+                pr = [t for t in p if t[0] == "probe"]
+                d = dict(pr[-1][1]) if pr and pr[-1][1] else {}
+                adv_spans.add(("rest" if d.get("empty") and d.get("same") and (d.get("start") is None or d.get("start") >= 0) and stage == CHAIN[3] else d.get("start")) if d.get("same") else None)
                 # Complete only after the consumption of this stage's packet
                 val = p[stores[-1]][2]
                 if val.endswith("Complete"):
                     first_take = takes[0][0] if takes else 10 ** 9
-                    rep.check("C05.R1", "%s|complete-after-consumption" % stage, first_take < stores[-1] and stage == CHAIN[3],
+                    pr = [t for t in p if t[0] == "probe"]
+                    d = dict(pr[-1][1]) if pr and pr[-1][1] else {}
+                    consumed = first_take < stores[-1] or bool(d.get("empty"))
+                    rep.check("C05.R1", "%s|complete-after-consumption" % stage, consumed and stage == CHAIN[3],
                               "Complete is stored after the peer's last packet was taken from the buffer",
                               "%s stores Complete %s" % (sb.pretty, "before consuming its packet" if stage == CHAIN[3] else "although it is not the last stage"), sb.span)
             elif is_ok:
@@ -109,7 +136,8 @@ def run(env, rep):
                               sb.pretty, [e[0] if isinstance(e, tuple) else e for e in effects][:3]), sb.span)
         wantc = CONSUMED.get(stage)
         if wantc is not None:
-            rep.check("C05.R1", "%s|consumes" % stage, adv_amounts == {tuple(wantc)},
+            want_span = {"rest"} if "rest" in wantc else ({int(wantc[0])} if wantc else {0})
+            rep.check("C05.R1", "%s|consumes" % stage, adv_amounts == {tuple(wantc)} or adv_spans == want_span,
                       "advancing from %s consumes %s byte(s)" % (stage, wantc or "no"),
                       "advancing from %s removes %s from the input buffer; the handshake needs exactly %s" % (stage, sorted(adv_amounts), wantc), sb.span)
         # gates: the consuming calls' preconditions are discharged
@@ -125,7 +153,7 @@ def run(env, rep):
         rep.anchor_missing("C05.R3", "stage function of " + CHAIN[3])
     else:
         n_c = 0
-        for p in [sig(p) for p in grammar.trace(env, last.key, "r").paths]:
+        for p in stage_traces.get(CHAIN[3], []):
             rets = [t for t in p if t[0] == "returns"]
             if not rets or "Completed(" not in rets[-1][1]:
                 continue
@@ -134,7 +162,12 @@ def run(env, rep):
             rest = inner.split("Completed(", 1)[1]
             rb = rest.rsplit(", ", 1)[-1] if ", " in rest else rest
             full = [t for t in p if t[0] == "mut" and t[1] == "drain" and t[2] == "input_buffer" and t[3] and t[3][0].startswith("RangeFull")]
-            rep.check("C05.R3", "%s|leftover-from-buffer" % last.pretty.split("::")[-1], "collect(" in rb and "drain" in rb and len(full) == 1,
+            pr = [t for t in p if t[0] == "probe"]
+            d = dict(pr[-1][1]) if pr and pr[-1][1] else {}
+            lf = d.get("left_from")
+            # the bytes handed back are exactly those that followed the 1536-byte packet in the buffer, and the buffer ends up empty
+            by_span = bool(lf) and lf[0] and lf[1] == 1536 and lf[2] == -1536 and bool(d.get("empty"))
+            rep.check("C05.R3", "%s|leftover-from-buffer" % last.pretty.split("::")[-1], ("collect(" in rb and "drain" in rb and len(full) == 1) or by_span,
                       "remaining_bytes = the rest of input_buffer (drain(..).collect())",
                       "on completion remaining_bytes is %s: bytes that followed the peer's last handshake packet must be handed back, in order, exactly once" % rb[:120], last.span)
         rep.floor("C05.R3", "completion paths of the last stage", n_c, 1)
